@@ -92,6 +92,10 @@ func checkStep(prop string, st *mstate, e mevent, c mcfg, o *stepObs, destroyedS
 	switch e.Op {
 	case "attach", "auth":
 		user = fmt.Sprintf("%s/%d", map[uint32]string{7: "glenda", 8: "bob", 0: "root"}[e.Uid], e.Uid)
+		if id, ok := map[string]uint32{"glenda": 7, "bob": 8, "root": 0}[e.Uname]; ok && !c.Dotu {
+			// the plain dialect carries no number: the name says who it is
+			user = fmt.Sprintf("%s/%d", e.Uname, id)
+		}
 		for _, cc := range calls {
 			if (cc.Op == "Attach" || cc.Op == "AuthInit") && cc.User != user && !pred.noCheck {
 				sig := "forwarded-with-wrong-user/" + e.Op
@@ -348,7 +352,7 @@ func c04Search(c mcfg, first int, depth int) Scenario {
 
 func c04Scenarios(tier string) []Scenario {
 	var out []Scenario
-	out = append(out, c04DuringDestroy("C04"))
+	out = append(out, c04DuringDestroy("C04"), c04DisconnectDuringBind("C04"))
 	depth := 4
 	if tier == "thorough" {
 		depth = 5
@@ -721,6 +725,79 @@ func c04DuringDestroy(prop string) Scenario {
 								res.Findings = append(res.Findings, Finding{Sig: sig, Msg: fmt.Sprintf("T%s then T%s (kept by the implementation if it gets there: %v), dotu=%v: %s", drop, probe, keep, dotu, bad)})
 							}
 						}
+					}
+				}
+			}
+		}
+		return res
+	}}
+}
+
+// c04DisconnectDuringBind: a request that binds a fid (Tattach, complete Twalk to a new
+// fid, Tauth) is inside the implementation when the client disconnects, and succeeds
+// afterwards. The implementation was shown the fid: it is told of its destruction
+// exactly once, as for every other fid of the connection.
+func c04DisconnectDuringBind(prop string) Scenario {
+	return Scenario{Name: "disconnect while a request that binds a fid is inside the implementation", Run: func(rc *RunCtx) *Result {
+		res := &Result{Exhaustive: true}
+		seen := map[string]bool{}
+		for _, kind := range []string{"attach", "walk", "auth", "walk-failing"} {
+			for _, dotu := range []bool{false, true} {
+				var bad string
+				body := func() {
+					s := newSess(SrvOpt{Msize: 256, Dotu: dotu, Maxpend: 1, Auth: kind == "auth"})
+					g := vs.NewSem(0)
+					act := &Action{Gate: g}
+					var m *wire.Msg
+					switch kind {
+					case "attach":
+						m = tattach(100, 5, wire.NOFID, "glenda", 7, dotu)
+					case "walk":
+						m = twalk(100, 0, 5, "d", "h")
+					case "walk-failing":
+						m = twalk(100, 0, 5, "d", "h")
+						act.Err = "refused after the disconnect"
+					case "auth":
+						m = &wire.Msg{Type: wire.Tauth, Tag: 100, Afid: 5, Uname: "glenda", NUname: 7, HasNUname: dotu}
+						s.fs.AuthReadGate = nil
+					}
+					s.fs.Script[reqKey{0, 100, 0}] = act
+					s.c.Send(dotu, m)
+					vs.Idle()
+					s.c.End.Close()
+					vs.Idle()
+					g.Release()
+					vs.Idle()
+					destroyed := map[int]int{}
+					for _, e := range s.fs.Log {
+						if e.Kind == "destroy" && e.Token != 0 {
+							destroyed[e.Token]++
+						}
+					}
+					for tok, conn := range s.fs.tokenConn {
+						if conn != 0 {
+							continue
+						}
+						if n := destroyed[tok]; n != 1 {
+							bad = fmt.Sprintf("a fid the implementation was shown (token %d) was reported destroyed %d times after the disconnect\n%s", tok, n, s.fs.logString())
+						}
+					}
+				}
+				x := vs.Run(nil, body, vs.Options{Horizon: 100000000})
+				res.Evals++
+				res.Nontrivial++
+				res.States++
+				res.Traces++
+				if len(x.Panics) > 0 {
+					bad = "panic: " + x.Panics[0].Value
+				} else if len(x.Fails) > 0 && bad == "" {
+					bad = "harness: " + x.Fails[0]
+				}
+				if bad != "" {
+					sig := prop + "/disconnect-during-bind/" + kind + "/" + sigWords(bad)
+					if !seen[sig] {
+						seen[sig] = true
+						res.Findings = append(res.Findings, Finding{Sig: sig, Msg: fmt.Sprintf("T%s parked in the implementation, disconnect, then it answers (dotu=%v): %s", kind, dotu, bad)})
 					}
 				}
 			}
